@@ -40,6 +40,8 @@ impl GraphColoredVertices {
     pub fn intersect_colors(&self, _c: &GraphColors) -> Self { unimplemented!() }
 }
 impl GraphVertices {
+    pub fn new(_bdd: Bdd, _ctx: &SymbolicContext) -> Self { unimplemented!() }
+    pub fn as_bdd(&self) -> &Bdd { unimplemented!() }
     pub fn union(&self, _o: &Self) -> Self { unimplemented!() }
     pub fn intersect(&self, _o: &Self) -> Self { unimplemented!() }
     pub fn minus(&self, _o: &Self) -> Self { unimplemented!() }
@@ -48,6 +50,8 @@ impl GraphVertices {
     pub fn approx_cardinality(&self) -> f64 { unimplemented!() }
 }
 impl GraphColors {
+    pub fn new(_bdd: Bdd, _ctx: &SymbolicContext) -> Self { unimplemented!() }
+    pub fn as_bdd(&self) -> &Bdd { unimplemented!() }
     pub fn union(&self, _o: &Self) -> Self { unimplemented!() }
     pub fn intersect(&self, _o: &Self) -> Self { unimplemented!() }
     pub fn minus(&self, _o: &Self) -> Self { unimplemented!() }
